@@ -118,7 +118,11 @@ SEEDS = {
                 "g.V().has('k', 1).drop()", "g.E().hasLabel('R').inV().id()", "g.V().values('k').sum().is(gt(9223372036854775807))", "g.V().range(-1, 99999999999999999999)", "g.V().has('name', 'a\\u00e9\\n\\\\\\'b').has(\"k\", \"x\\u0041\")"],
     "graphql": ["{ person(k: 1) { name friends { name } } }", "query Q($v: Int) { person(k: $v) { name } }", "mutation { createPerson(k: 5, name: \"x\") { id } }",
                 "{ person(first: 9223372036854775807, offset: -1, where: {age_gt: 1}) { ...F } } fragment F on Person { name }", "{ a: person { __typename } b: person @include(if: true) { name } }",
-                "{ person(filter: {k: [1, 2, {x: null}]}, orderBy: \"k\") { name(x: \"\\u00e9\\n\") } }", "{ person(name: \"\"\"block \\\"\"\" \\u00e9 text\"\"\", k: \"a\\u0041\\t\\\\\") { name } }"],
+                "{ person(filter: {k: [1, 2, {x: null}]}, orderBy: \"k\") { name(x: \"\\u00e9\\n\") } }", "{ person(name: \"\"\"block \\\"\"\" \\u00e9 text\"\"\", k: \"a\\u0041\\t\\\\\") { name } }",
+                # fragments that reach themselves (directly, through each other, through a relationship field, unused) and inline fragments
+                "query { person { ...F } } fragment F on Person { name ...F }", "{ person { ...A } } fragment A on Person { name ...B } fragment B on Person { k ...A }",
+                "{ person { name } } fragment U on Person { ...U }", "{ person { friends { ...F } } } fragment F on Person { name friends { ...F } }",
+                "{ person { ... on Person { name ... on Person { k } } ...G } } fragment G on Person { ... on Person { ...G } }"],
     "sparql": ["PREFIX ex: <http://x/> SELECT DISTINCT ?s ?o WHERE { ?s ex:p ?o . FILTER(?o = \"lit\") } ORDER BY DESC(?s) LIMIT 2 OFFSET 1", "SELECT (COUNT(*) AS ?c) WHERE { ?s ?p ?o } GROUP BY ?p HAVING (?c > 0)",
                "INSERT DATA { <http://x/b> <http://x/p> \"v\"@en , 1 , \"2\"^^<http://www.w3.org/2001/XMLSchema#integer> }", "SELECT ?s WHERE { { ?s ?p 1 } UNION { ?s ?p 2 } OPTIONAL { ?s <http://x/q> ?z } MINUS { ?s ?p 3 } }",
                "ASK { ?s ?p ?o FILTER(REGEX(STR(?o), \"(\") && ?o / 0 > 1) }", "SELECT ?x WHERE { BIND(9223372036854775807 + 1 AS ?x) VALUES ?y { 1 2 } }", "DELETE DATA { <http://x/a> <http://x/p> \"lit\" }",
